@@ -283,7 +283,11 @@ func (p *Peer) Consumed() int {
 }
 
 // Pending returns what the library wrote since the last answered step.
-func (p *Peer) Pending() []byte { p.mu.Lock(); defer p.mu.Unlock(); return append([]byte(nil), p.acc...) }
+func (p *Peer) Pending() []byte {
+	p.mu.Lock()
+	defer p.mu.Unlock()
+	return append([]byte(nil), p.acc...)
+}
 
 // Script is the bufconn script of the peer.
 func (p *Peer) Script() bufconn.Script {
